@@ -147,9 +147,9 @@ def matrix_one(n, ids):
     return n, (caught, broken)
 
 
-def cmd_matrix(par=4):
+def cmd_matrix(par=4, only=None):
     from concurrent.futures import ThreadPoolExecutor
-    names = sorted(n for n in os.listdir(SEEDED) if os.path.exists(os.path.join(SEEDED, n, 'patch.diff')))
+    names = sorted(n for n in os.listdir(SEEDED) if os.path.exists(os.path.join(SEEDED, n, 'patch.diff')) and (not only or n in only))
     ids = claimed()
     with ThreadPoolExecutor(max_workers=par) as ex:
         for n, r in ex.map(lambda n: matrix_one(n, ids), names):
@@ -173,4 +173,4 @@ if __name__ == '__main__':
     if a[0] == 'import': sys.exit(cmd_import(a[1], a[2]))
     if a[0] == 'run': sys.exit(cmd_run(a[1], a[2:]))
     if a[0] == 'table': sys.exit(cmd_table())
-    if a[0] == 'matrix': sys.exit(cmd_matrix(int(a[1]) if len(a) > 1 else 4))
+    if a[0] == 'matrix': sys.exit(cmd_matrix(int(a[1]) if len(a) > 1 else 4, a[2:]))
